@@ -756,4 +756,155 @@ theorem intStr_nat (n : Nat) : intStr (n : Rat) = Nat.toDigits 10 n := by
   have h : ¬ ((n : Int) < 0) := by omega
   simp [h]
 
+/-! ## … and for every plain decimal literal `ddd.fff` -/
+
+theorem takeNumber_numchars (t : Str) (ht : ∀ c ∈ t, isNumChar c = true) (stop : Char) (hstop : isNumChar stop = false) (hs2 : (stop == '+' || stop == '-') = false) (acc : Str) :
+    takeNumber acc (t ++ [stop]) = (acc.reverse ++ t, [stop]) := by
+  induction t generalizing acc with
+  | nil =>
+    simp only [List.nil_append, List.append_nil]
+    rw [takeNumber_cons]
+    have : takeCond stop acc = false := by unfold takeCond; simp [hstop, hs2]
+    simp [this]
+  | cons c cs ih =>
+    have hc := ht c (by simp)
+    simp only [List.cons_append]
+    rw [takeNumber_cons]
+    have : takeCond c acc = true := by unfold takeCond; simp [hc]
+    simp only [this, if_true]
+    rw [ih (fun x hx => ht x (by simp [hx]))]
+    simp
+
+theorem findIdx?_append_first (ds fs : Str) (p : Char → Bool) (x : Char) (hds : ∀ c ∈ ds, p c = false) (hx : p x = true) :
+    (ds ++ x :: fs).findIdx? p = some ds.length := by
+  induction ds with
+  | nil => simp [List.findIdx?_cons, hx]
+  | cons d ds ih =>
+    have hd := hds d (by simp)
+    simp only [List.cons_append, List.findIdx?_cons, hd, Bool.false_eq_true, if_false]
+    rw [ih (fun c hc => hds c (by simp [hc]))]
+    simp
+
+theorem digitPart_digits (ds : Str) (hne : ds ≠ []) (hd : ∀ c ∈ ds, c.isDigit = true) :
+    digitPart ds = some (Nat.ofDigitChars 10 ds 0, ds.length) := by
+  obtain ⟨c, cs, rfl⟩ := List.exists_cons_of_ne_nil hne
+  unfold digitPart
+  simp only
+  rw [digitPart_go_digits _ hd 0 0 false (Or.inl (by simp))]
+  simp
+
+/-- `float("ddd.fff")` -/
+theorem unsignedFloat_decimal (c : Char) (cs fs : Str) (hd : ∀ x ∈ c :: cs, x.isDigit = true) (hfne : fs ≠ []) (hf : ∀ x ∈ fs, x.isDigit = true) :
+    unsignedFloat ((c :: cs) ++ '.' :: fs) =
+      .ok (((Nat.ofDigitChars 10 (c :: cs) 0 : Nat) : Rat) + ((Nat.ofDigitChars 10 fs 0 : Nat) : Rat) / pow10 fs.length) := by
+  have hall : ∀ x ∈ (c :: cs) ++ '.' :: fs, x.isDigit = true ∨ x = '.' := by
+    intro x hx
+    simp only [List.mem_append, List.mem_cons] at hx
+    rcases hx with hx | rfl | hx
+    · exact Or.inl (hd x (by simpa using hx))
+    · exact Or.inr rfl
+    · exact Or.inl (hf x hx)
+  have hne : ∀ (w : Str), (∃ y ys, w = y :: ys ∧ y.isDigit = false) → (lower ((c :: cs) ++ '.' :: fs) == w) = false := by
+    intro w ⟨y, ys, hw, hy⟩
+    rw [beq_eq_false_iff_ne]
+    intro h
+    have h1 : (lower ((c :: cs) ++ '.' :: fs)).head? = some y := by rw [h, hw]; rfl
+    have hc0 : c.isDigit = true := hd c (by simp)
+    have hl := lower_digits [c] (by intro x hx; simp only [List.mem_singleton] at hx; rw [hx]; exact hc0)
+    have h2 : (lower ((c :: cs) ++ '.' :: fs)).head? = some c.toLower := by simp [lower]
+    rw [h2] at h1
+    have := hl c.toLower (by simp [lower])
+    have hcy : c.toLower = y := by simpa using h1
+    rw [hcy] at this; rw [this] at hy; cases hy
+  unfold unsignedFloat
+  have e1 := hne "inf".toList ⟨'i', ['n', 'f'], rfl, by decide⟩
+  have e2 := hne "infinity".toList ⟨'i', _, rfl, by decide⟩
+  have e3 := hne "nan".toList ⟨'n', _, rfl, by decide⟩
+  simp only [e1, e2, e3, Bool.or_self, Bool.false_eq_true, if_false]
+  have f1 : ((c :: cs) ++ '.' :: fs).findIdx? (fun c => c == 'e' || c == 'E') = none := by
+    rw [List.findIdx?_eq_none_iff]
+    intro x hx
+    rcases hall x hx with h | h
+    · have := digit_facts2 h; simp [this.2.1, this.2.2.1]
+    · subst h; decide
+  have f2 : ((c :: cs) ++ '.' :: fs).findIdx? (· == '.') = some (c :: cs).length :=
+    findIdx?_append_first (c :: cs) fs _ '.' (fun x hx => by have := digit_facts2 (hd x hx); simp [this.2.2.2]) (by decide)
+  simp only [f1, f2]
+  have t1 : ((c :: cs) ++ '.' :: fs).take (c :: cs).length = c :: cs := List.take_left
+  have t2 : ((c :: cs) ++ '.' :: fs).drop ((c :: cs).length + 1) = fs := by
+    rw [← List.drop_drop]; simp
+  rw [t1, t2]
+  obtain ⟨f, fr, rfl⟩ := List.exists_cons_of_ne_nil hfne
+  simp only [digitPart_digits (c :: cs) (by simp) hd, digitPart_digits (f :: fr) (by simp) hf]
+  simp [pow10]
+
+/-- the value of the decimal literal `ds.fs` -/
+def decValue (ds fs : Str) : Rat := ((Nat.ofDigitChars 10 ds 0 : Nat) : Rat) + ((Nat.ofDigitChars 10 fs 0 : Nat) : Rat) / pow10 fs.length
+
+theorem parseFloat_decimal (c : Char) (cs fs : Str) (hd : ∀ x ∈ c :: cs, x.isDigit = true) (hfne : fs ≠ []) (hf : ∀ x ∈ fs, x.isDigit = true) :
+    parseFloat ((c :: cs) ++ '.' :: fs) = .ok (decValue (c :: cs) fs) := by
+  have hc := digit_facts (hd c (by simp))
+  have hws : ∀ x ∈ (c :: cs) ++ '.' :: fs, isWs x = false := by
+    intro x hx
+    simp only [List.mem_append, List.mem_cons] at hx
+    rcases hx with hx | rfl | hx
+    · exact isWs_of_digit (hd x (by simpa using hx))
+    · decide
+    · exact isWs_of_digit (hf x hx)
+  unfold parseFloat
+  rw [strip_no_ws _ hws]
+  have key : ∀ (t : Str), t = (c :: cs) ++ '.' :: fs →
+      (match t with
+        | '-' :: r => (match unsignedFloat r with | .ok q => FloatRes.ok (-q) | x => x)
+        | '+' :: r => unsignedFloat r
+        | r => unsignedFloat r) = unsignedFloat ((c :: cs) ++ '.' :: fs) := by
+    intro t ht
+    split
+    · rename_i r; simp only [List.cons_append, List.cons.injEq] at ht; exact absurd ht.1.symm hc.2.1
+    · rename_i r; simp only [List.cons_append, List.cons.injEq] at ht; exact absurd ht.1.symm hc.2.2.1
+    · rw [ht]
+  exact (key _ rfl).trans (unsignedFloat_decimal c cs fs hd hfne hf)
+
+/-- **every plain decimal literal `ddd.fff`** (digits, one point, digits) satisfies the side condition of the distribution theorems -/
+theorem TokOK_decimal (ds fs : Str) (hne : ds ≠ []) (hd : ∀ c ∈ ds, c.isDigit = true) (hfne : fs ≠ []) (hf : ∀ x ∈ fs, x.isDigit = true) :
+    TokOK (ds ++ '.' :: fs) (decValue ds fs) := by
+  obtain ⟨c, cs, rfl⟩ := List.exists_cons_of_ne_nil hne
+  have hc := hd c (by simp)
+  have hcf := digit_facts hc
+  have hc2 := digit_facts2 hc
+  have hnum : ∀ x ∈ (c :: cs) ++ '.' :: fs, isNumChar x = true := by
+    intro x hx
+    simp only [List.mem_append, List.mem_cons] at hx
+    rcases hx with hx | rfl | hx
+    · have := hd x (by simpa using hx); unfold isNumChar; simp [this]
+    · decide
+    · have := hf x hx; unfold isNumChar; simp [this]
+  refine ⟨?_, ?_, ?_, ?_, ?_⟩
+  · unfold numberLit
+    have g1 : (((c :: cs) ++ '.' :: fs).length > 1 && ((c :: cs) ++ '.' :: fs).all (fun c => c.isDigit || c == '_') && ((c :: cs) ++ '.' :: fs).head? == some '0' && ((c :: cs) ++ '.' :: fs).any (fun c => c != '0' && c != '_')) = false := by
+      have : (((c :: cs) ++ '.' :: fs).all (fun c => c.isDigit || c == '_')) = false := by
+        rw [List.all_eq_false]
+        exact ⟨'.', by simp, by decide⟩
+      simp only [this, Bool.and_false, Bool.false_and]
+    have g2 : (((c :: cs) ++ '.' :: fs).head? == some '_' || ((c :: cs) ++ '.' :: fs).head? == some '+' || ((c :: cs) ++ '.' :: fs).head? == some '-') = false := by
+      simp [hc2.1, hcf.2.1, hcf.2.2.1]
+    rw [g1, g2]
+    simp only [Bool.false_eq_true, if_false]
+    rw [parseFloat_decimal c cs fs hd hfne hf]
+  · have := takeNumber_numchars ((c :: cs) ++ '.' :: fs) hnum ',' (by decide) (by decide) []
+    simpa using this
+  · have := takeNumber_numchars ((c :: cs) ++ '.' :: fs) hnum ')' (by decide) (by decide) []
+    simpa using this
+  · intro x hx
+    simp only [List.mem_append, List.mem_cons] at hx
+    rcases hx with hx | rfl | hx
+    · exact Or.inl (hd x (by simpa using hx))
+    · exact Or.inr (Or.inl rfl)
+    · exact Or.inl (hf x hx)
+  · simp [hc]
+
+/-- the hypotheses are met by e.g. `1.05` and `20.50` (value 41/2) -/
+example : decValue "20".toList "50".toList = 41 / 2 ∧ decValue "1".toList "05".toList = 21 / 20 := by
+  constructor <;> decide +kernel
+
 end GBS.P
